@@ -1,0 +1,8 @@
+//go:build !verif
+
+package endpoint
+
+import "net/http"
+
+// verifHTTPClient is a simulation hook; a no-op without the "verif" build tag.
+func verifHTTPClient(c *http.Client) {}
